@@ -994,3 +994,287 @@ Proof.
   - split; change slen with len in *; now apply N.leb_le.
   - assumption.
 Qed.
+
+(* ------------------------------------------------------------------ (6) Prop-level readings *)
+Lemma nth_firstn' (l : list N) : forall k j, (j < k)%nat -> nth j (firstn k l) 0 = nth j l 0.
+Proof.
+  induction l as [|x l IH]; intros k j H; [now rewrite firstn_nil|].
+  destruct k as [|k]; [lia|]. destruct j as [|j]; cbn [firstn nth]; [reflexivity|]. apply IH. lia.
+Qed.
+Lemma nth_skipn' (l : list N) : forall k j, nth j (skipn k l) 0 = nth (k + j) l 0.
+Proof.
+  induction l as [|x l IH]; intros k j.
+  - rewrite skipn_nil. destruct (k + j)%nat, j; reflexivity.
+  - destruct k as [|k]; [reflexivity|]. cbn [skipn plus nth]. apply IH.
+Qed.
+Lemma h_write_inside h a d i : a + len d <= len h -> i < len d ->
+  nth (N.to_nat (a + i)) (h_write h a d) 0 = nth (N.to_nat i) d 0.
+Proof.
+  unfold len. intros H Hi. rewrite h_write_eq.
+  rewrite app_nth2 by (rewrite firstn_length; lia). rewrite firstn_length.
+  rewrite app_nth1 by lia. f_equal. lia.
+Qed.
+Lemma h_write_outside h a d j : a + len d <= len h -> j < a \/ a + len d <= j ->
+  nth (N.to_nat j) (h_write h a d) 0 = nth (N.to_nat j) h 0.
+Proof.
+  unfold len. intros H Hj. rewrite h_write_eq. destruct Hj as [Hj|Hj].
+  - rewrite app_nth1 by (rewrite firstn_length; lia). apply nth_firstn'. lia.
+  - rewrite app_nth2 by (rewrite firstn_length; lia). rewrite firstn_length.
+    rewrite app_nth2 by lia. rewrite nth_skipn'. f_equal. lia.
+Qed.
+Lemma h_read_nth h a kk i : a + kk <= len h -> i < kk ->
+  nth (N.to_nat i) (h_read h a kk) 0 = nth (N.to_nat (a + i)) h 0.
+Proof.
+  unfold len. intros H Hi. rewrite h_read_eq. rewrite nth_firstn' by lia. rewrite nth_skipn'. f_equal. lia.
+Qed.
+Lemma h_read_h_write h a d : a + len d <= len h -> h_read (h_write h a d) a (len d) = d.
+Proof.
+  unfold len. intros H. rewrite h_read_eq, h_write_eq.
+  set (A := firstn (N.to_nat a) h).
+  assert (LA : length A = N.to_nat a) by (unfold A; rewrite firstn_length; lia).
+  rewrite <- LA. rewrite skipn_app, skipn_all, Nat.sub_diag. cbn [skipn app].
+  rewrite Nat2N.id. rewrite firstn_app, Nat.sub_diag, firstn_all. cbn [firstn]. apply app_nil_r.
+Qed.
+
+Lemma k0 : 0 <= 2.
+Proof. lia. Qed.
+Lemma write_exact_lemma : forall hb pre n h buf addr,
+  pre + n <= len h -> hb + len h <= ISZ_MAX ->
+  let h' := fst (vs_write hb h {| vs_addr := pre; vs_size := n |} buf addr) in
+  let res := snd (vs_write hb h {| vs_addr := pre; vs_size := n |} buf addr) in
+  (len buf = 0 -> res = Ok 0 /\ h' = h) /\
+  (0 < len buf -> n <= addr -> res = Err EOutOfBounds /\ h' = h) /\
+  (0 < len buf -> addr < n ->
+     let kk := N.min (len buf) (n - addr) in
+     res = Ok kk /\ length h' = length h /\
+     (forall i, i < kk -> nth (N.to_nat (pre + addr + i)) h' 0 = nth (N.to_nat i) buf 0) /\
+     (forall j, j < pre + addr \/ pre + addr + kk <= j -> nth (N.to_nat j) h' 0 = nth (N.to_nat j) h 0)).
+Proof.
+  intros hb pre n h buf addr H1 H2. cbv zeta. rewrite (vs_write_nf 0 hb pre n k0 h buf addr (conj H1 H2)).
+  destruct (N.eqb_spec (len buf) 0) as [E|E]; cbn [fst snd].
+  { split; [auto|]. split; intros; lia. }
+  split; [intros; lia|]. destruct (N.leb_spec n addr) as [Ha|Ha]; cbn [fst snd].
+  { split; [auto|]. intros; lia. }
+  split; [intros; lia|]. intros _ _. rewrite (N.min_comm (len buf)).
+  set (kk := N.min (n - addr) (len buf)).
+  assert (L : len (takeN kk buf) = kk) by (rewrite takeN_firstn; unfold len; rewrite firstn_length; unfold len in kk; lia).
+  split; [reflexivity|]. split; [apply h_write_length; lia|]. split.
+  - intros i Hi. rewrite h_write_inside by lia. rewrite takeN_firstn. apply nth_firstn'. lia.
+  - intros j Hj. apply h_write_outside; lia.
+Qed.
+Lemma read_exact_lemma : forall hb pre n h buf addr,
+  pre + n <= len h -> hb + len h <= ISZ_MAX ->
+  let b' := fst (vs_read hb h {| vs_addr := pre; vs_size := n |} buf addr) in
+  let res := snd (vs_read hb h {| vs_addr := pre; vs_size := n |} buf addr) in
+  (len buf = 0 -> res = Ok 0 /\ b' = buf) /\
+  (0 < len buf -> n <= addr -> res = Err EOutOfBounds /\ b' = buf) /\
+  (0 < len buf -> addr < n ->
+     let kk := N.min (len buf) (n - addr) in
+     res = Ok kk /\ length b' = length buf /\
+     (forall i, i < kk -> nth (N.to_nat i) b' 0 = nth (N.to_nat (pre + addr + i)) h 0) /\
+     (forall i, kk <= i -> nth (N.to_nat i) b' 0 = nth (N.to_nat i) buf 0)).
+Proof.
+  intros hb pre n h buf addr H1 H2. cbv zeta. rewrite (vs_read_nf 0 hb pre n k0 h buf addr (conj H1 H2)).
+  destruct (N.eqb_spec (len buf) 0) as [E|E]; cbn [fst snd].
+  { split; [auto|]. split; intros; lia. }
+  split; [intros; lia|]. destruct (N.leb_spec n addr) as [Ha|Ha]; cbn [fst snd].
+  { split; [auto|]. intros; lia. }
+  split; [intros; lia|]. intros _ _. rewrite (N.min_comm (len buf)).
+  set (kk := N.min (n - addr) (len buf)).
+  assert (L : length (h_read h (pre + addr) kk) = N.to_nat kk) by (apply h_read_length; lia).
+  split; [reflexivity|]. rewrite dropN_skipn. split; [|split].
+  - rewrite app_length, L, skipn_length. unfold len in *. lia.
+  - intros i Hi. rewrite app_nth1 by lia. apply h_read_nth; lia.
+  - intros i Hi. rewrite app_nth2 by lia. rewrite L, nth_skipn'. f_equal. lia.
+Qed.
+Lemma slice_forms_lemma : forall hb pre n h buf addr,
+  pre + n <= len h -> hb + len h <= ISZ_MAX ->
+  let C := {| vs_addr := pre; vs_size := n |} in
+  fst (vs_write_slice hb h C buf addr) = fst (vs_write hb h C buf addr) /\
+  fst (vs_read_slice hb h C buf addr) = fst (vs_read hb h C buf addr) /\
+  (snd (vs_write_slice hb h C buf addr) = Ok tt <-> len buf = 0 \/ addr + len buf <= n) /\
+  (snd (vs_read_slice hb h C buf addr) = Ok tt <-> len buf = 0 \/ addr + len buf <= n).
+Proof.
+  intros hb pre n h buf addr H1 H2. cbv zeta.
+  rewrite (vs_write_slice_nf 0 hb pre n k0 h buf addr (conj H1 H2)), (vs_write_nf 0 hb pre n k0 h buf addr (conj H1 H2)).
+  rewrite (vs_read_slice_nf 0 hb pre n k0 h buf addr (conj H1 H2)), (vs_read_nf 0 hb pre n k0 h buf addr (conj H1 H2)).
+  destruct (N.eqb_spec (len buf) 0) as [E|E]; cbn [fst snd].
+  { repeat split; auto. }
+  destruct (N.leb_spec n addr) as [Ha|Ha]; cbn [fst snd].
+  { repeat split; try discriminate; intros [?|?]; lia. }
+  destruct (N.eqb_spec (N.min (n - addr) (len buf)) (len buf)) as [Em|Em]; cbn [fst snd];
+    repeat split; try discriminate; auto; try (intros _; right; lia); intros [?|?]; lia.
+Qed.
+
+(* ---- all routes observe the same memory ---- *)
+(* the ways of storing the value v of type t at byte offset off of the container ... *)
+Definition store_route (hb pre n : N) (t : sty) (v off : N) (o : op) : Prop :=
+  o = OWriteObj t v off \/ o = ORefStore t v off \/
+  (o = OStore t v off /\ wf_aty t = true /\ (hb + pre + off) mod st_size t = 0) \/
+  (exists off0 cnt idx, o = OArrStore t off0 cnt idx v /\ idx < cnt /\
+                        off0 + cnt * st_size t <= n /\ off0 + idx * st_size t = off).
+(* ... and of loading it *)
+Definition load_route (hb pre n : N) (t : sty) (off : N) (o : op) : Prop :=
+  o = OReadObj t off \/ o = ORefLoad t off \/
+  (o = OLoad t off /\ wf_aty t = true /\ (hb + pre + off) mod st_size t = 0) \/
+  (exists off0 cnt idx, o = OArrLoad t off0 cnt idx /\ idx < cnt /\
+                        off0 + cnt * st_size t <= n /\ off0 + idx * st_size t = off).
+
+Lemma agrees_must_ok x r : agrees x r -> s_must r = Some true ->
+  mo_kind x = 0 /\ mo_n x = s_n r /\ mo_heap x = s_heap r.
+Proof.
+  unfold agrees. intros A M. destruct (N.eqb_spec (mo_kind x) 0) as [E|E].
+  - tauto.
+  - destruct A as [A _]. rewrite M in A. discriminate A.
+Qed.
+Lemma image_len t v : len (image t v) = st_size t.
+Proof. rewrite <- as_slice_image. apply as_slice_len. Qed.
+
+Section Routes.
+Variables (k : N) (m : mode) (hb pre n : N).
+Hypothesis Hk : k <= 2.
+Notation r := {| mr_addr := pre; mr_size := n |}.
+
+Lemma store_step h t v off o : inv hb pre n h -> 1 <= st_size t -> off + st_size t <= n ->
+  store_route hb pre n t v off o ->
+  mo_kind (model_step k m hb r h o) = 0 /\ mo_heap (model_step k m hb r h o) = put h (pre + off) (image t v).
+Proof.
+  intros Hi Hs Hb [->|[->|[(-> & Ha & Hal)|(off0 & cnt & idx & -> & Hx & Hc & Ho)]]].
+  - pose proof (step_write_obj k m hb pre n Hk h t v off Hi) as A.
+    apply agrees_must_ok in A.
+    + destruct A as (A1 & _ & A3). split; [assumption|]. rewrite A3. cbn [spec_step]. unfold sp_in.
+      change slen with len. rewrite image_len.
+      destruct (N.eqb_spec (st_size t) 0); [lia|]. destruct (N.leb_spec n off); [lia|]. cbn [s_heap].
+      unfold cut. change slen with len. rewrite ?image_len. rewrite N.min_l by lia.
+      rewrite firstn_all2; [reflexivity|]. pose proof (image_len t v) as L. unfold len in L. lia.
+    + cbn [spec_step]. unfold sp_in. change slen with len. rewrite image_len.
+      destruct (N.eqb_spec (st_size t) 0); [lia|]. destruct (N.leb_spec n off); [lia|]. cbn [s_must].
+      unfold cut. change slen with len. rewrite ?image_len. rewrite N.min_l by lia. now rewrite N.eqb_refl.
+  - pose proof (step_ref_store k m hb pre n Hk h t v off Hi) as A.
+    apply agrees_must_ok in A.
+    + destruct A as (A1 & _ & A3). split; [assumption|]. rewrite A3. reflexivity.
+    + cbn [spec_step]. unfold sp_store, acc_req. cbn [s_must].
+      destruct (N.eqb_spec (st_size t) 0); [lia|]. destruct (N.leb_spec (off + st_size t) n); [reflexivity|lia].
+  - pose proof (step_store k m hb pre n Hk h t v off Hi Ha) as A.
+    apply agrees_must_ok in A.
+    + destruct A as (A1 & _ & A3). split; [assumption|]. rewrite A3. reflexivity.
+    + cbn [spec_step]. unfold sp_store. cbn [s_must]. now apply (atomic_true k hb pre n Hk).
+  - pose proof (step_arr_store k m hb pre n Hk h t off0 cnt idx v Hi) as A.
+    apply agrees_must_ok in A.
+    + destruct A as (A1 & _ & A3). split; [assumption|]. rewrite A3. cbn [spec_step].
+      destruct (N.ltb_spec idx cnt); [|lia]. unfold sp_store. cbn [s_heap]. now rewrite Ho.
+    + cbn [spec_step]. destruct (N.ltb_spec idx cnt); [|lia]. unfold sp_store, acc_req. cbn [s_must].
+      destruct (N.eqb_spec (cnt * st_size t) 0); [nia|].
+      destruct (N.leb_spec (off0 + cnt * st_size t) n); [reflexivity|lia].
+Qed.
+Lemma load_step h t off o : inv hb pre n h -> 1 <= st_size t -> off + st_size t <= n ->
+  load_route hb pre n t off o ->
+  mo_kind (model_step k m hb r h o) = 0 /\
+  mo_n (model_step k m hb r h o) = value t (get h (pre + off) (st_size t)).
+Proof.
+  intros Hi Hs Hb [->|[->|[(-> & Ha & Hal)|(off0 & cnt & idx & -> & Hx & Hc & Ho)]]].
+  - pose proof (step_read_obj k m hb pre n Hk h t off Hi) as A.
+    assert (LZ : len (repeat 0 (N.to_nat (st_size t))) = st_size t) by (unfold len; rewrite repeat_length; lia).
+    apply agrees_must_ok in A.
+    + destruct A as (A1 & A2 & _). split; [assumption|]. rewrite A2. cbn [spec_step s_n]. unfold sp_out.
+      change slen with len. rewrite LZ.
+      destruct (N.eqb_spec (st_size t) 0); [lia|]. destruct (N.leb_spec n off); [lia|]. cbn [s_buf].
+      unfold cut. change slen with len. rewrite ?LZ. rewrite N.min_l by lia.
+      rewrite skipn_all2 by (rewrite repeat_length; lia). now rewrite app_nil_r.
+    + cbn [spec_step s_must]. unfold sp_out. change slen with len. rewrite LZ.
+      destruct (N.eqb_spec (st_size t) 0); [lia|]. destruct (N.leb_spec n off); [lia|]. cbn [s_must].
+      unfold cut. change slen with len. rewrite ?LZ. rewrite N.min_l by lia. now rewrite N.eqb_refl.
+  - pose proof (step_ref_load k m hb pre n Hk h t off Hi) as A.
+    apply agrees_must_ok in A.
+    + destruct A as (A1 & A2 & _). split; [assumption|]. rewrite A2. reflexivity.
+    + cbn [spec_step]. unfold sp_load, acc_req. cbn [s_must].
+      destruct (N.eqb_spec (st_size t) 0); [lia|]. destruct (N.leb_spec (off + st_size t) n); [reflexivity|lia].
+  - pose proof (step_load k m hb pre n Hk h t off Hi Ha) as A.
+    apply agrees_must_ok in A.
+    + destruct A as (A1 & A2 & _). split; [assumption|]. rewrite A2. reflexivity.
+    + cbn [spec_step]. unfold sp_load. cbn [s_must]. now apply (atomic_true k hb pre n Hk).
+  - pose proof (step_arr_load k m hb pre n Hk h t off0 cnt idx Hi) as A.
+    apply agrees_must_ok in A.
+    + destruct A as (A1 & A2 & _). split; [assumption|]. rewrite A2. cbn [spec_step].
+      destruct (N.ltb_spec idx cnt); [|lia]. unfold sp_load. cbn [s_n]. now rewrite Ho.
+    + cbn [spec_step]. destruct (N.ltb_spec idx cnt); [|lia]. unfold sp_load, acc_req. cbn [s_must].
+      destruct (N.eqb_spec (cnt * st_size t) 0); [nia|].
+      destruct (N.leb_spec (off0 + cnt * st_size t) n); [reflexivity|lia].
+Qed.
+Lemma hist_inv ops : forall h, inv hb pre n h -> forallb wf_op ops = true ->
+  inv hb pre n (heap_after k m hb r h ops).
+Proof.
+  induction ops as [|o ops IH]; intros h Hi Hw; cbn [heap_after]; [assumption|].
+  cbn [forallb] in Hw. apply andb_true_iff in Hw. destruct Hw as [Hw1 Hw2].
+  apply IH; [|assumption]. now apply step_inv.
+Qed.
+Lemma get_put h a d : a + len d <= len h -> get (put h a d) a (len d) = d.
+Proof.
+  intros H. rewrite put_h_write by assumption. rewrite get_h_read.
+  - now apply h_read_h_write.
+  - unfold len at 2. rewrite h_write_length by assumption. exact H.
+Qed.
+Lemma value_image t v : v < 256 ^ st_size t -> value t (image t v) = v.
+Proof.
+  intros H. rewrite <- as_slice_image, <- from_bytes_value. apply from_as. exact H.
+Qed.
+End Routes.
+
+Lemma routes_agree_lemma : forall k m hb pre n h0 ops t v off s l,
+  k <= 2 -> pre + n <= len h0 -> hb + len h0 <= ISZ_MAX -> forallb wf_op ops = true ->
+  1 <= st_size t -> v < 256 ^ st_size t -> off + st_size t <= n ->
+  store_route hb pre n t v off s -> load_route hb pre n t off l ->
+  let r := {| mr_addr := pre; mr_size := n |} in
+  let h := heap_after k m hb r h0 ops in
+  let x := model_step k m hb r h s in
+  let y := model_step k m hb r (mo_heap x) l in
+  mo_kind x = 0 /\ mo_kind y = 0 /\ mo_n y = v.
+Proof.
+  intros k m hb pre n h0 ops t v off s l Hk H1 H2 Hw Hs Hv Hb Hst Hld. cbv zeta.
+  assert (Hi : inv hb pre n (heap_after k m hb {| mr_addr := pre; mr_size := n |} h0 ops))
+    by (apply hist_inv; [assumption|split; assumption|assumption]).
+  set (h := heap_after k m hb {| mr_addr := pre; mr_size := n |} h0 ops) in *.
+  destruct (store_step k m hb pre n Hk h t v off s Hi Hs Hb Hst) as [S1 S2].
+  split; [assumption|]. rewrite S2.
+  assert (Hi' : inv hb pre n (put h (pre + off) (image t v))).
+  { unfold inv, len in *. rewrite put_length. exact Hi. }
+  destruct (load_step k m hb pre n Hk _ t off l Hi' Hs Hb Hld) as [L1 L2].
+  split; [assumption|]. rewrite L2. rewrite <- (image_len t v). rewrite get_put.
+  - now apply value_image.
+  - rewrite image_len. destruct Hi as [Ha Hb']. lia.
+Qed.
+
+(* ---- element-count laws ---- *)
+Lemma arr_copy_to_count_lemma : forall m h t aa cnt buf,
+  aa + cnt * st_size t <= len h -> cnt * st_size t < W64 ->
+  exists b', va_copy_to m h {| va_addr := aa; va_nelem := cnt |} (vt t) buf = Val (b', N.min (len buf) cnt)
+             /\ length b' = length buf.
+Proof.
+  intros m h t aa cnt buf Hb Hw. rewrite (va_copy_to_nf 0 m k0) by assumption. cbv zeta.
+  eexists. split; [reflexivity|]. rewrite app_length, map_length, seq_length, dropN_skipn, skipn_length.
+  unfold len. lia.
+Qed.
+Lemma sl_copy_to_count_lemma : forall m h t sa ss buf,
+  sa + ss <= len h -> ss <= ISZ_MAX ->
+  exists b', vs_copy_to m h {| vs_addr := sa; vs_size := ss |} (vt t) buf =
+             Val (b', if st_size t =? 0 then len buf else N.min (len buf) (ss / st_size t))
+             /\ length b' = length buf.
+Proof.
+  intros m h t sa ss buf Hb Hs. pose proof isz_lt_w.
+  destruct (N.eqb_spec (st_size t) 0) as [Z|Z].
+  { unfold vs_copy_to. change (ty_size (vt t)) with (st_size t). rewrite Z.
+    change (0 =? 1) with false. change (0 =? 0) with true. cbv iota. eauto. }
+  assert (Q : ss / st_size t * st_size t <= ss) by now apply div_mul_le.
+  assert (R : vs_copy_to m h {| vs_addr := sa; vs_size := ss |} (vt t) buf =
+              va_copy_to m h {| va_addr := sa; va_nelem := ss / st_size t |} (vt t) buf).
+  { destruct (N.eqb_spec (st_size t) 1) as [E|E].
+    - rewrite (one_copy_to 0 m k0) by (assumption || (cbn [vs_size]; lia)). cbn [vs_addr vs_size].
+      now rewrite E, N.div_1_r.
+    - unfold vs_copy_to. change (ty_size (vt t)) with (st_size t).
+      destruct (N.eqb_spec (st_size t) 1); [contradiction|]. destruct (N.eqb_spec (st_size t) 0); [contradiction|].
+      unfold pdiv. destruct (N.eqb_spec (st_size t) 0); [contradiction|]. cbn [bind vs_size].
+      rewrite (get_array_ref_ok 0 k0); cbn [vs_size vs_addr]; try lia.
+      + cbn [bind]. now rewrite N.add_0_r.
+      + assert (ss / st_size t <= ss) by (apply N.div_le_upper_bound; [assumption|nia]). lia. }
+  rewrite R. apply arr_copy_to_count_lemma; lia.
+Qed.
